@@ -19,9 +19,26 @@
     rotate   the head of the first located region becomes position 0;
     extract  the emitted regions are the first occurrences of the located ones (or, with `-v`,
              exactly the maximal unlocated stretches, by C09), filtered by length.
-  Feature-level statements cite C02, C03, C04 for one step of a loop.
+  Feature-level statements ("features in every output denote the residues they denoted in the
+  input"), for the whole loops (helper lemmas in Gts/Lemmas/CliFeatures.lean):
+    delete   every feature kept in table order (`delete_feats`); its location denotes its former
+             residues re-mapped by `Cli.unionDelMap` of the minimised located regions
+             (`delete_features_partial`, `=` under `Nodup`), which is where the residues went
+             (`delete_residue_at`), hence it READS the same residues (`…_residues_partial`);
+             `-e`: exactly the features failing `Cli.eraseKeep` are dropped, never one that keeps
+             a residue, always a plain range inside one located stretch;
+    insert   table = host features + one guest copy per region (`insert_feats_perm`); host
+             features re-mapped by `Cli.multiInsMap` (`insert_host_features_partial`), guest
+             copies offset by their position in the OUTPUT (`guest_den_partial`,
+             `guest_copy_bytes`); infix: the same outside the guest copies;
+    rotate / linear split   C04 / C03 lifted to the loops (`rotate_features_partial`,
+             `split_features_partial`: the windows partition the record and every residue of a
+             feature is denoted by the feature's piece in exactly one window).
+  All under the K2 guards of the single steps folded along the loop (`Cli.delAbs`, `Cli.insAbs`);
+  the unguarded statements are refuted (`…_full_refuted`).
 -/
 import Gts.Lemmas.Cli
+import Gts.Lemmas.CliFeatures
 import Gts.Props.C02
 import Gts.Props.C03
 import Gts.Props.C04
@@ -541,6 +558,385 @@ theorem extract_invert_cover (locs : List (Seq → List Reg)) (s : Seq)
     rw [Cli.nonEmpty_many_iff] at hne ⊢
     intro r hr; exact hne r ((hmem r).mp hr)
 
+/-! ## delete: what happens to the FEATURES (multi-site) -/
+
+/-- **composition lemma (delete)**, pure arithmetic: for forward, increasing, pairwise disjoint
+segments, folding the single-cut re-mappings `delMap s (e-s)` over the segments in DESCENDING
+order (`Cli.composeDel`, the order of the loop) is `Cli.unionDelMap`, a re-mapping of the
+INPUT's positions: a position inside some segment is removed, any other position `x` moves left
+by the total length of the segments that end at or before `x`. -/
+theorem delete_remap_compose_segs (ss : List Seg) (hf : ∀ o ∈ ss, o.1 ≤ o.2)
+    (hp : ss.Pairwise (fun a b => a.2 ≤ b.1)) (x : Int) :
+    Cli.composeDel ss x = Cli.unionDelMap ss x :=
+  Cli.composeDel_eq_unionDelMap ss hf hp x
+
+/-- … in particular for the minimised segments of ANY region (C09: forward, strictly increasing,
+never abutting) — no hypothesis. -/
+theorem delete_remap_compose (r : Reg) (x : Int) :
+    Cli.composeDel (minimize r) x = Cli.unionDelMap (minimize r) x :=
+  Cli.composeDel_eq_unionDelMap _ (minimize_fwd r) ((minimize_pairwise r).imp Int.le_of_lt) x
+
+/-- the positions `unionDelMap` removes are exactly the positions some located region covers -/
+theorem unionDelMap_removed_iff (r : Reg) (x : Int) :
+    Cli.unionDelMap (minimize r) x = none ↔ cover r x := by
+  unfold Cli.unionDelMap
+  rw [← minimize_segsCover r x]
+  split <;> simp [*]
+
+/-- a position left of every located region stays where it is -/
+theorem unionDelMap_left (r : Reg) (x : Int) (h : ∀ o ∈ minimize r, x < o.1) :
+    Cli.unionDelMap (minimize r) x = some x := by
+  unfold Cli.unionDelMap
+  rw [if_neg, Cli.delOffset_zero_of_lt _ (minimize_fwd r) x h]
+  · simp
+  · rintro ⟨o, ho, h1, _⟩
+    have := h o ho; omega
+
+/-- **`unionDelMap` in words of the INPUT only**: a position `x ≥ 0` that no located region covers
+moves left by the NUMBER OF COVERED POSITIONS below it (located regions at non-negative
+positions) — the re-mapping does not depend on how the regions are presented. -/
+theorem unionDelMap_eq_count (r : Reg) (hw : ∀ o ∈ minimize r, 0 ≤ o.1) (x : Int) (hx : 0 ≤ x)
+    (hc : ¬ cover r x) :
+    Cli.unionDelMap (minimize r) x =
+      some (x - ((List.range x.toNat).countP fun (k : Nat) => decide (cover r (k : Int)) : Nat)) := by
+  have hcs : ¬ segsCover (minimize r) x := fun h => hc ((minimize_segsCover r x).mp h)
+  unfold Cli.unionDelMap
+  rw [if_neg hcs, Cli.delOffset_eq_count _ (minimize_fwd r) ((minimize_pairwise r).imp Int.le_of_lt)
+    hw x hx hcs]
+  congr 3
+  apply List.countP_congr
+  intro k _
+  simp only [Cli.covB]
+  rw [decide_eq_decide.mpr (minimize_segsCover r _)]
+
+/-- `unionDelMap` is injective where it is defined (two surviving residues never collide) -/
+theorem unionDelMap_inj (r : Reg) (x x' y : Int) (h : Cli.unionDelMap (minimize r) x = some y)
+    (h' : Cli.unionDelMap (minimize r) x' = some y) : x = x' := by
+  rw [← delete_remap_compose] at h h'
+  exact Cli.composeDel_inj _ x x' y h h'
+
+/-- **`gts delete` keeps every feature**: the same number, in the same table order, with
+unchanged key and qualifiers; each is re-located by `Cli.delLoc` — `Expand(head, -len)` for
+every minimised segment, from the rightmost to the leftmost. -/
+theorem delete_feats (loc : Seq → List Reg) (s : Seq) :
+    (Cli.delete loc false s).feats =
+      s.feats.map fun f => { f with loc := Cli.delLoc (minimize (many (loc s))) f.loc } :=
+  Cli.deleteSegs_feats _ _
+
+/-- FULL STATEMENT (false today through known finding K2 inside `Join`):
+`∀ loc s, ∀ f ∈ s.feats, wf f.loc → ∃ f' ∈ (Cli.delete loc false s).feats, f'.key = f.key ∧
+ f'.props = f.props ∧ den f'.loc ≼ filterMapPos (unionDelMap (minimize (many (loc s)))) (den f.loc)`;
+witness: `join(4..6,9)` on a 10-residue record with `[6,8)` deleted loses base 9. -/
+theorem delete_features_full_refuted :
+    ¬ (∀ (loc : Seq → List Reg) (s : Seq) (f : Feature), f ∈ s.feats → f.loc.wf = true →
+        ∃ f' ∈ (Cli.delete loc false s).feats, f'.key = f.key ∧ f'.props = f.props ∧
+          f'.loc.den ≼ filterMapPos (Cli.unionDelMap (minimize (many (loc s)))) f.loc.den) := by
+  intro h
+  obtain ⟨f', hf', _, _, hden⟩ := h (fun _ => [seg 6 8])
+    ⟨[⟨"gene", .joined [.ranged 3 6 false false, .point 8], []⟩], [97, 99, 103, 116, 97, 99, 103, 116, 97, 99]⟩
+    ⟨"gene", .joined [.ranged 3 6 false false, .point 8], []⟩ (by simp) (by decide)
+  rw [delete_feats] at hf'
+  simp only [List.map_cons, List.map_nil, List.mem_singleton] at hf'
+  subst hf'
+  have := hden.2 (6, false) (by rw [minimize_eq]; decide)
+  revert this
+  rw [minimize_eq]
+  decide
+
+/-- **`gts delete`, every feature, every locator** (last sentence of the property): for every
+feature `f` of the input record with a well-formed location of any kind, nesting and strand, and
+every locator, the record written by `gts delete` contains a feature with the same key and
+qualifiers whose location denotes exactly the residues `f` denoted in the INPUT that no located
+region covers, at their new positions (`Cli.unionDelMap` of the minimised located regions), in
+the same order and on the same strand (duplicate occurrences may be merged) — provided rule K2
+fires in no `Join` of any step of the loop (`Cli.delAbs`, the conjunction of the single-step
+guards `expandAbs`, decidable).  The located regions may overlap, nest, lie on either strand,
+have zero length, or reach outside the record. -/
+theorem delete_features_partial (loc : Seq → List Reg) (s : Seq) (f : Feature) (hf : f ∈ s.feats)
+    (hw : f.loc.wf = true) (hk2 : Cli.delAbs (minimize (many (loc s))) f.loc = false) :
+    ∃ f' ∈ (Cli.delete loc false s).feats, f'.key = f.key ∧ f'.props = f.props ∧
+      f'.loc.den ≼ filterMapPos (Cli.unionDelMap (minimize (many (loc s)))) f.loc.den := by
+  refine ⟨{ f with loc := Cli.delLoc (minimize (many (loc s))) f.loc }, ?_, rfl, rfl, ?_⟩
+  · rw [delete_feats]; exact List.mem_map_of_mem hf
+  · have h := (Cli.delLoc_den (minimize (many (loc s))) f.loc hw).1 hk2
+    rw [show Cli.composeDel (minimize (many (loc s))) = Cli.unionDelMap (minimize (many (loc s))) from
+      funext (delete_remap_compose _)] at h
+    exact h
+
+/-- … with EQUALITY for duplicate-free locations (every real feature). -/
+theorem delete_features_eq_partial (loc : Seq → List Reg) (s : Seq) (f : Feature) (hf : f ∈ s.feats)
+    (hw : f.loc.wf = true) (hk2 : Cli.delAbs (minimize (many (loc s))) f.loc = false)
+    (hnd : f.loc.den.Nodup) :
+    ∃ f' ∈ (Cli.delete loc false s).feats, f'.key = f.key ∧ f'.props = f.props ∧
+      f'.loc.den = filterMapPos (Cli.unionDelMap (minimize (many (loc s)))) f.loc.den := by
+  obtain ⟨f', h1, h2, h3, h4⟩ := delete_features_partial loc s f hf hw hk2
+  exact ⟨f', h1, h2, h3, h4.eq_of_nodup
+    (Cli.nodup_filterMapPos _ _ (unionDelMap_inj (many (loc s))) hnd)⟩
+
+/-- the re-located features stay well-formed (so the theorems apply again to the output) -/
+theorem delete_features_wf (loc : Seq → List Reg) (s : Seq) (f : Feature) (hw : f.loc.wf = true) :
+    (Cli.delLoc (minimize (many (loc s))) f.loc).wf = true :=
+  (Cli.delLoc_den _ f.loc hw).2
+
+/-- **`gts delete -e`, which features are dropped**: exactly those failing `Cli.eraseKeep` — at
+some cut of the loop the feature is not a `source` and its CURRENT location (after the cuts to
+the right) lies wholly within the segment being cut (`gts.Erase`, C03 `erase_spec`); the others
+survive in table order with unchanged key and qualifiers, re-located as under plain delete. -/
+theorem delete_erase_feats (loc : Seq → List Reg) (s : Seq) :
+    (Cli.delete loc true s).feats =
+      (s.feats.filter (Cli.eraseKeep (minimize (many (loc s))))).map fun f =>
+        { f with loc := Cli.delLoc (minimize (many (loc s))) f.loc } :=
+  Cli.deleteSegs_erase_feats _ _
+
+/-- a `source` feature is never dropped -/
+theorem delete_erase_keeps_source (ss : List Seg) (f : Feature) (h : f.key = "source") :
+    Cli.eraseKeep ss f = true := by
+  induction ss with
+  | nil => rfl
+  | cons a ss ih => simp [Cli.eraseKeep, ih, h]
+
+/-- without any located region nothing is dropped; a feature is dropped at the first (rightmost)
+cut at which its current location lies within the cut -/
+theorem delete_erase_keep_iff (a : Seg) (ss : List Seg) (f : Feature) :
+    Cli.eraseKeep (a :: ss) f = true ↔
+      Cli.eraseKeep ss f = true ∧
+        (f.key = "source" ∨ (Cli.delLoc ss f.loc).within a.1 (a.1 + Reg.gabs (a.2 - a.1)) = false) := by
+  simp [Cli.eraseKeep]
+
+/-- **`gts delete -e`, surviving features** denote their former residues like under plain delete -/
+theorem delete_erase_features_partial (loc : Seq → List Reg) (s : Seq) (f : Feature) (hf : f ∈ s.feats)
+    (hkeep : Cli.eraseKeep (minimize (many (loc s))) f = true)
+    (hw : f.loc.wf = true) (hk2 : Cli.delAbs (minimize (many (loc s))) f.loc = false) :
+    ∃ f' ∈ (Cli.delete loc true s).feats, f'.key = f.key ∧ f'.props = f.props ∧
+      f'.loc.den ≼ filterMapPos (Cli.unionDelMap (minimize (many (loc s)))) f.loc.den := by
+  refine ⟨{ f with loc := Cli.delLoc (minimize (many (loc s))) f.loc }, ?_, rfl, rfl, ?_⟩
+  · rw [delete_erase_feats]; exact List.mem_map_of_mem (List.mem_filter.mpr ⟨hf, hkeep⟩)
+  · have h := (Cli.delLoc_den (minimize (many (loc s))) f.loc hw).1 hk2
+    rw [show Cli.composeDel (minimize (many (loc s))) = Cli.unionDelMap (minimize (many (loc s))) from
+      funext (delete_remap_compose _)] at h
+    exact h
+
+/-- … and every feature of the `-e` output comes from a kept feature of the input -/
+theorem delete_erase_feature_origin (loc : Seq → List Reg) (s : Seq) (f' : Feature)
+    (hf' : f' ∈ (Cli.delete loc true s).feats) :
+    ∃ f ∈ s.feats, Cli.eraseKeep (minimize (many (loc s))) f = true ∧ f'.key = f.key ∧
+      f'.props = f.props ∧ f'.loc = Cli.delLoc (minimize (many (loc s))) f.loc := by
+  rw [delete_erase_feats] at hf'
+  obtain ⟨f, hf, rfl⟩ := List.mem_map.mp hf'
+  obtain ⟨hm, hk⟩ := List.mem_filter.mp hf
+  exact ⟨f, hm, hk, rfl, rfl, rfl⟩
+
+/-- **`gts delete -e` never drops a feature that keeps a residue** (safety, in terms of the
+INPUT): if a feature with a well-formed location is dropped, every residue it denoted is covered
+by a located region — provided K2 fires in no step before the drop. -/
+theorem delete_erase_dropped_covered_partial (loc : Seq → List Reg) (s : Seq) (f : Feature)
+    (hw : f.loc.wf = true) (hk2 : Cli.delAbs (minimize (many (loc s))) f.loc = false)
+    (hd : Cli.eraseKeep (minimize (many (loc s))) f = false) :
+    ∀ p ∈ f.loc.den, cover (many (loc s)) p.1 := by
+  intro p hp
+  rw [← unionDelMap_removed_iff, ← delete_remap_compose]
+  exact Cli.composeDel_none_of_dropped _ f hw hk2 hd p hp
+
+/-- … equivalently: a feature one of whose residues survives is kept (with that residue). -/
+theorem delete_erase_kept_of_survivor_partial (loc : Seq → List Reg) (s : Seq) (f : Feature)
+    (hw : f.loc.wf = true) (hk2 : Cli.delAbs (minimize (many (loc s))) f.loc = false)
+    (p : Pos) (hp : p ∈ f.loc.den) (hs : ¬ cover (many (loc s)) p.1) :
+    Cli.eraseKeep (minimize (many (loc s))) f = true := by
+  cases h : Cli.eraseKeep (minimize (many (loc s))) f with
+  | true => rfl
+  | false => exact absurd (delete_erase_dropped_covered_partial loc s f hw hk2 h p hp) hs
+
+/-- **`gts delete -e` drops every plain range lying within one maximal located stretch**
+(liveness for the contiguous kind, in terms of the INPUT): a non-`source` feature `s..e` with
+`[s, e)` inside one minimised segment of the located regions fails `eraseKeep`, so it is not
+written (`delete_erase_feats`).  No guard: a range is never `Join`ed. -/
+theorem delete_erase_drops_ranged (loc : Seq → List Reg) (s : Seq) (f : Feature)
+    (st e : Int) (p5 p3 : Bool) (hloc : f.loc = .ranged st e p5 p3) (hse : st < e)
+    (hns : f.key ≠ "source") (a : Seg) (ha : a ∈ minimize (many (loc s)))
+    (hin : a.1 ≤ st ∧ e ≤ a.2) :
+    Cli.eraseKeep (minimize (many (loc s))) f = false := by
+  obtain ⟨pre, post, hsplit⟩ := List.append_of_mem ha
+  have hp := minimize_pairwise (many (loc s))
+  rw [hsplit] at hp ⊢
+  have hpost := (List.pairwise_cons.mp (List.pairwise_append.mp hp).2.1).1
+  exact Cli.eraseKeep_false_of_ranged_within pre a post f st e p5 p3 hloc hse hns hin
+    (fun b hb => by have := hpost b hb; omega)
+
+/-! ## insert / infix: what happens to the FEATURES (multi-site) -/
+
+/-- **composition lemma (insert)**, pure arithmetic: folding the single-insertion re-mappings
+`insMap h g` over the heads in DESCENDING order (`Cli.composeIns`, the order of the loop;
+duplicates allowed) is `Cli.multiInsMap`, a re-mapping of the INPUT's positions: `x` moves right
+by `g · #{h ∈ heads | h ≤ x}` (the boundary convention of `insMap`: the residue AT a head moves). -/
+theorem insert_remap_compose (heads : List Int) (g : Int) (hg : 0 ≤ g) (x : Int) :
+    Cli.composeIns g (Cli.sortDesc heads) x = Cli.multiInsMap heads g x := by
+  rw [Cli.composeIns_eq_multiInsMap g hg _ (Cli.sortDesc_sorted heads),
+    Cli.multiInsMap_perm (Cli.sortDesc_perm heads)]
+
+/-- `multiInsMap` is injective (two host residues never collide) and monotone bounds -/
+theorem multiInsMap_inj (heads : List Int) (g : Int) (hg : 0 ≤ g) (x x' : Int)
+    (h : Cli.multiInsMap heads g x = Cli.multiInsMap heads g x') : x = x' := by
+  rw [← insert_remap_compose heads g hg, ← insert_remap_compose heads g hg] at h
+  exact Cli.composeIns_inj g hg _ x x' h
+
+/-- **feature table after `gts insert` / `gts infix`**: every host feature exactly once
+(re-located by `Cli.insLoc`: `Shift(i, n)` — infix: `Expand(i, n)` — for every head, descending)
+and one copy of every guest feature per located region (`Cli.guestCopies`: `Expand(0, i)`, then
+re-located like a host feature by the later insertions); keys and qualifiers unchanged. -/
+theorem insert_feats_perm (loc : Seq → List Reg) (embed : Bool) (host guest : Seq) :
+    (Cli.insert loc embed host guest).feats.Perm
+      (host.feats.map (Cli.relocate embed guest.len (Cli.sortDesc ((loc host).map Reg.head))) ++
+        Cli.guestCopies embed guest.len guest.feats (Cli.sortDesc ((loc host).map Reg.head))) :=
+  Cli.insertAt_feats_perm embed _ host guest
+
+/-- … hence `|host| + #regions · |guest|` features -/
+theorem insert_feature_count (loc : Seq → List Reg) (embed : Bool) (host guest : Seq) :
+    (Cli.insert loc embed host guest).feats.length =
+      host.feats.length + (loc host).length * guest.feats.length := by
+  rw [(insert_feats_perm loc embed host guest).length_eq, List.length_append, List.length_map,
+    Cli.guestCopies_length, (Cli.sortDesc_perm _).length_eq, List.length_map]
+
+/-- FULL STATEMENT (false today through known finding K2 inside `Join`): the same without the
+guard; witness: `join(4..6,7)` with an empty guest inserted at 0 (C02 `shift_den_full_refuted`). -/
+theorem insert_host_features_full_refuted :
+    ¬ (∀ (loc : Seq → List Reg) (host guest : Seq) (f : Feature), f ∈ host.feats → f.loc.wf = true →
+        ∃ f' ∈ (Cli.insert loc false host guest).feats, f'.key = f.key ∧ f'.props = f.props ∧
+          f'.loc.den ≼ mapPos (Cli.multiInsMap ((loc host).map Reg.head) guest.len) f.loc.den) := by
+  intro h
+  obtain ⟨f', hf', _, _, hden⟩ := h (fun _ => [seg 0 1])
+    ⟨[⟨"gene", .joined [.ranged 3 6 false false, .point 6], []⟩], [97, 99, 103, 116, 97, 99, 103, 116, 97, 99]⟩
+    ⟨[], []⟩ ⟨"gene", .joined [.ranged 3 6 false false, .point 6], []⟩ (by simp) (by decide)
+  have hp : f' ∈ [Cli.relocate false 0 [0]
+      ⟨"gene", .joined [.ranged 3 6 false false, .point 6], []⟩] :=
+    (insert_feats_perm _ false _ _).subset hf'
+  rw [List.mem_singleton] at hp
+  subst hp
+  have := hden.2 (6, false) (by decide)
+  revert this
+  decide
+
+/-- **`gts insert`, host features, every locator** (last sentence of the property): for every
+host feature `f` with a well-formed location of any kind, nesting and strand, the record written
+by `gts insert` contains a feature with the same key and qualifiers whose location denotes
+exactly the residues `f` denoted in the INPUT, at their new positions (`Cli.multiInsMap` of the
+heads of the located regions: one guest length per head at or before the residue), same order
+and strand — provided K2 fires in no `Join` of any step (`Cli.insAbs false`, the conjunction of
+the single-step guards `shiftAbs`).  Heads may repeat, be unordered, or lie outside the record. -/
+theorem insert_host_features_partial (loc : Seq → List Reg) (host guest : Seq) (f : Feature)
+    (hf : f ∈ host.feats) (hw : f.loc.wf = true)
+    (hk2 : Cli.insAbs false guest.len (Cli.sortDesc ((loc host).map Reg.head)) f.loc = false) :
+    ∃ f' ∈ (Cli.insert loc false host guest).feats, f'.key = f.key ∧ f'.props = f.props ∧
+      f'.loc.den ≼ mapPos (Cli.multiInsMap ((loc host).map Reg.head) guest.len) f.loc.den := by
+  refine ⟨Cli.relocate false guest.len (Cli.sortDesc ((loc host).map Reg.head)) f, ?_, rfl, rfl, ?_⟩
+  · exact (insert_feats_perm loc false host guest).symm.subset
+      (List.mem_append_left _ (List.mem_map_of_mem hf))
+  · have h := (Cli.insLoc_den guest.len guest.len_nonneg _ f.loc hw).1 hk2
+    rw [show Cli.composeIns guest.len (Cli.sortDesc ((loc host).map Reg.head)) =
+        Cli.multiInsMap ((loc host).map Reg.head) guest.len from
+      funext (insert_remap_compose _ _ guest.len_nonneg)] at h
+    exact h
+
+/-- … with EQUALITY for duplicate-free locations (every real feature). -/
+theorem insert_host_features_eq_partial (loc : Seq → List Reg) (host guest : Seq) (f : Feature)
+    (hf : f ∈ host.feats) (hw : f.loc.wf = true)
+    (hk2 : Cli.insAbs false guest.len (Cli.sortDesc ((loc host).map Reg.head)) f.loc = false)
+    (hnd : f.loc.den.Nodup) :
+    ∃ f' ∈ (Cli.insert loc false host guest).feats, f'.key = f.key ∧ f'.props = f.props ∧
+      f'.loc.den = mapPos (Cli.multiInsMap ((loc host).map Reg.head) guest.len) f.loc.den := by
+  obtain ⟨f', h1, h2, h3, h4⟩ := insert_host_features_partial loc host guest f hf hw hk2
+  exact ⟨f', h1, h2, h3, h4.eq_of_nodup
+    (Cli.nodup_mapPos _ _ (multiInsMap_inj _ _ guest.len_nonneg) hnd)⟩
+
+/-- **`gts infix` (`Embed`), host features**: `Expand` stretches a part that spans a head over
+the guest copy there (that is the point of infix), so the law is stated like C02
+`expand_den_partial`: OUTSIDE the guest copies (`Cli.stripGuests` removes the residues of every
+copy, whose output positions are `Cli.copyStarts`) the location denotes exactly the residues
+`f` denoted in the input, at their new positions — under the folded guard `Cli.insAbs true`. -/
+theorem infix_host_features_partial (loc : Seq → List Reg) (host guest : Seq) (f : Feature)
+    (hf : f ∈ host.feats) (hw : f.loc.wf = true)
+    (hk2 : Cli.insAbs true guest.len (Cli.sortDesc ((loc host).map Reg.head)) f.loc = false) :
+    ∃ f' ∈ (Cli.insert loc true host guest).feats, f'.key = f.key ∧ f'.props = f.props ∧
+      Cli.stripGuests (Cli.copyStarts guest.len (Cli.sortDesc ((loc host).map Reg.head))) guest.len
+          f'.loc.den ≼
+        mapPos (Cli.multiInsMap ((loc host).map Reg.head) guest.len) f.loc.den := by
+  refine ⟨Cli.relocate true guest.len (Cli.sortDesc ((loc host).map Reg.head)) f, ?_, rfl, rfl, ?_⟩
+  · exact (insert_feats_perm loc true host guest).symm.subset
+      (List.mem_append_left _ (List.mem_map_of_mem hf))
+  · have h := (Cli.embLoc_den guest.len guest.len_nonneg _ (Cli.sortDesc_sorted _) f.loc hw).1 hk2
+    rw [show Cli.composeIns guest.len (Cli.sortDesc ((loc host).map Reg.head)) =
+        Cli.multiInsMap ((loc host).map Reg.head) guest.len from
+      funext (insert_remap_compose _ _ guest.len_nonneg)] at h
+    exact h
+
+/-- the descending head list, cut at one of its elements: what follows is descending and `≤` it -/
+theorem sortDesc_split (heads pre post : List Int) (i : Int)
+    (h : Cli.sortDesc heads = pre ++ i :: post) :
+    post.Pairwise (fun a b => b ≤ a) ∧ (∀ a ∈ post, a ≤ i) ∧ i ∈ heads ∧ (∀ a ∈ post, a ∈ heads) := by
+  have hs := Cli.sortDesc_sorted heads
+  rw [h] at hs
+  have h2 := List.pairwise_cons.mp (List.pairwise_append.mp hs).2.1
+  have hm : ∀ a ∈ pre ++ i :: post, a ∈ heads := fun a ha =>
+    (Cli.sortDesc_perm heads).subset (h ▸ ha)
+  exact ⟨h2.2, h2.1, hm i (by simp), fun a ha => hm a (by simp [ha])⟩
+
+/-- **guest features, every copy** (`gts insert`): let the descending head list be
+`pre ++ i :: post`.  The copy inserted at `i` ends up at position `i + |guest| · |post|` of the
+OUTPUT (it is moved by the `|post|` later insertions), and each of its features — same key and
+qualifiers as in the guest — denotes the guest's residues offset by exactly that position.
+Hypotheses: `0 ≤ i`, guest location well-formed with non-negative coordinates, K2 guards of
+`Expand(0, i)` and of the later steps. -/
+theorem guest_den_partial (loc : Seq → List Reg) (host guest : Seq) (pre post : List Int) (i : Int)
+    (hsplit : Cli.sortDesc ((loc host).map Reg.head) = pre ++ i :: post) (hi : 0 ≤ i)
+    (f : Feature) (hf : f ∈ guest.feats) (hw : f.loc.wf = true) (hnn : f.loc.nonneg = true)
+    (g1 : Loc.expandAbs f.loc 0 i = false)
+    (g2 : Cli.insAbs false guest.len post (f.loc.expand 0 i) = false) :
+    ∃ f' ∈ (Cli.insert loc false host guest).feats, f'.key = f.key ∧ f'.props = f.props ∧
+      f'.loc.den ≼ mapPos (· + (i + guest.len * post.length)) f.loc.den := by
+  obtain ⟨hs, hpost, _, _⟩ := sortDesc_split _ pre post i hsplit
+  refine ⟨Cli.relocate false guest.len post { f with loc := f.loc.expand 0 i }, ?_, rfl, rfl, ?_⟩
+  · apply (insert_feats_perm loc false host guest).symm.subset
+    rw [hsplit]
+    exact List.mem_append_right _ (Cli.mem_guestCopies false guest.len guest.feats pre i post f hf)
+  · exact Cli.guestLoc_den guest.len guest.len_nonneg i hi post hs hpost f.loc hw hnn g1 g2
+
+/-- **guest features, every copy** (`gts infix`): the same outside the LATER guest copies
+(`Expand` of a later insertion at an index `≤ i` only translates the copy; the statement keeps
+the form of C02 `expand_den_partial`). -/
+theorem infix_guest_den_partial (loc : Seq → List Reg) (host guest : Seq) (pre post : List Int) (i : Int)
+    (hsplit : Cli.sortDesc ((loc host).map Reg.head) = pre ++ i :: post) (hi : 0 ≤ i)
+    (f : Feature) (hf : f ∈ guest.feats) (hw : f.loc.wf = true) (hnn : f.loc.nonneg = true)
+    (g1 : Loc.expandAbs f.loc 0 i = false)
+    (g2 : Cli.insAbs true guest.len post (f.loc.expand 0 i) = false) :
+    ∃ f' ∈ (Cli.insert loc true host guest).feats, f'.key = f.key ∧ f'.props = f.props ∧
+      Cli.stripGuests (Cli.copyStarts guest.len post) guest.len f'.loc.den ≼
+        mapPos (· + (i + guest.len * post.length)) f.loc.den := by
+  obtain ⟨hs, hpost, _, _⟩ := sortDesc_split _ pre post i hsplit
+  refine ⟨Cli.relocate true guest.len post { f with loc := f.loc.expand 0 i }, ?_, rfl, rfl, ?_⟩
+  · apply (insert_feats_perm loc true host guest).symm.subset
+    rw [hsplit]
+    exact List.mem_append_right _ (Cli.mem_guestCopies true guest.len guest.feats pre i post f hf)
+  · exact Cli.guestLoc_emb_den guest.len guest.len_nonneg i hi post hs hpost f.loc hw hnn g1 g2
+
+/-- **… and that position is where the copy's residues are**: with every head in `[0, len]`, the
+output of `gts insert` / `gts infix` reads the guest's residues at
+`[i + |guest| · |post|, i + |guest| · |post| + |guest|)`. -/
+theorem guest_copy_bytes (loc : Seq → List Reg) (embed : Bool) (host guest : Seq)
+    (hw : ∀ h ∈ (loc host).map Reg.head, 0 ≤ h ∧ h ≤ host.len) (pre post : List Int) (i : Int)
+    (hsplit : Cli.sortDesc ((loc host).map Reg.head) = pre ++ i :: post) :
+    ((Cli.insert loc embed host guest).bytes.drop (i + guest.len * post.length).toNat).take
+      guest.bytes.length = guest.bytes := by
+  obtain ⟨_, hpost, hi, hpm⟩ := sortDesc_split _ pre post i hsplit
+  have hi' := hw i hi
+  unfold Cli.insert
+  rw [Cli.insertAt_bytes, hsplit]
+  have e : (i + guest.len * post.length).toNat = i.toNat + post.length * guest.bytes.length := by
+    have : guest.len * (post.length : Int) = ((post.length * guest.bytes.length : Nat) : Int) := by
+      unfold Seq.len; rw [Int.natCast_mul, Int.mul_comm]
+    rw [this]; omega
+  rw [e]
+  exact Cli.foldl_splice_copy pre i post guest.bytes host.bytes hi'
+    (fun a ha => ⟨(hw a (hpm a ha)).1, hpost a ha⟩)
+
 /-! ## non-vacuity -/
 
 /-- `ACGTAC` -/
@@ -577,6 +973,420 @@ example : (Cli.extract [loc0, loc0] false s0).map (·.bytes) = [[65, 67, 71], [6
 example : (Cli.extract [loc0] true s0).map (·.bytes) = [[65, 67]] := by
   simp only [Cli.extract, Cli.extractRegs, invertLinear_eq, minimize_eq]; decide
 example : within s0.len (many ([loc0].flatMap fun l => l s0)) ∧ nonEmpty (many ([loc0].flatMap fun l => l s0)) := by
+  decide
+
+/-! ## the re-mappings are what the loops do to the RESIDUES, hence: features read the same residues -/
+
+/-- **`unionDelMap` is where `gts delete` puts the residues**: the surviving residue that was at
+position `x ≥ 0` of the input is at position `unionDelMap … x` of the output (located regions
+inside the record). -/
+theorem delete_residue_at (loc : Seq → List Reg) (erase : Bool) (s : Seq)
+    (hw : within s.len (many (loc s))) (x y : Int) (hx : 0 ≤ x)
+    (h : Cli.unionDelMap (minimize (many (loc s))) x = some y) :
+    0 ≤ y ∧ (Cli.delete loc erase s).bytes[y.toNat]? = s.bytes[x.toNat]? := by
+  unfold Cli.delete
+  rw [Cli.deleteSegs_bytes]
+  rw [← delete_remap_compose] at h
+  exact Cli.foldr_cutB_get _ _
+    (fun o ho => ⟨(minimize_within _ _ hw o ho).1, minimize_fwd _ o ho⟩) x y hx h
+
+/-- **`multiInsMap` is where `gts insert` / `gts infix` put the host's residues**: the residue at
+position `x` of the host (`0 ≤ x < len`) is at position `multiInsMap heads |guest| x` of the
+output (every head `≥ 0`). -/
+theorem insert_residue_at (loc : Seq → List Reg) (embed : Bool) (host guest : Seq)
+    (hw : ∀ h ∈ (loc host).map Reg.head, 0 ≤ h) (x : Int) (hx : 0 ≤ x) (hxl : x < host.len) :
+    (Cli.insert loc embed host guest).bytes[(Cli.multiInsMap ((loc host).map Reg.head) guest.len x).toNat]? =
+      host.bytes[x.toNat]? := by
+  unfold Cli.insert
+  rw [Cli.insertAt_bytes, ← insert_remap_compose _ _ guest.len_nonneg]
+  exact Cli.foldl_splice_get _ guest.bytes host.bytes
+    (fun i hi => hw i ((Cli.sortDesc_perm _).subset hi)) x hx hxl
+
+/-- a residue as a feature reads it: the byte at the position (if any) and the strand -/
+def readAt (bs : List UInt8) (p : Pos) : Option UInt8 × Bool := (bs[p.1.toNat]?, p.2)
+
+/-- **`gts delete`: every feature reads, in the output, the residues it read in the input** — the
+last sentence of the property, literally: for a feature `f` with a well-formed, duplicate-free
+location on non-negative positions, the written record has a feature with the same key and
+qualifiers whose location reads (`readAt`: byte and strand, in order) from the OUTPUT residues
+exactly what `f`'s location read from the INPUT residues at the positions no located region
+covers.  Guards: located regions inside the record, K2 in no step (`Cli.delAbs`). -/
+theorem delete_features_residues_partial (loc : Seq → List Reg) (s : Seq) (f : Feature)
+    (hf : f ∈ s.feats) (hwr : within s.len (many (loc s)))
+    (hw : f.loc.wf = true) (hk2 : Cli.delAbs (minimize (many (loc s))) f.loc = false)
+    (hnd : f.loc.den.Nodup) (hpos : ∀ p ∈ f.loc.den, 0 ≤ p.1) :
+    ∃ f' ∈ (Cli.delete loc false s).feats, f'.key = f.key ∧ f'.props = f.props ∧
+      f'.loc.den.map (readAt (Cli.delete loc false s).bytes) =
+        (f.loc.den.filter fun p => !decide (cover (many (loc s)) p.1)).map (readAt s.bytes) := by
+  obtain ⟨f', h1, h2, h3, h4⟩ := delete_features_eq_partial loc s f hf hw hk2 hnd
+  refine ⟨f', h1, h2, h3, ?_⟩
+  rw [h4]
+  apply Cli.map_filterMapPos_eq
+  intro p hp
+  cases hy : Cli.unionDelMap (minimize (many (loc s))) p.1 with
+  | none =>
+    left
+    exact ⟨rfl, by simp [(unionDelMap_removed_iff _ _).mp hy]⟩
+  | some y =>
+    right
+    refine ⟨y, rfl, ?_, ?_⟩
+    · have : ¬ cover (many (loc s)) p.1 := by
+        intro hc
+        rw [(unionDelMap_removed_iff _ _).mpr hc] at hy
+        cases hy
+      simp [this]
+    · have := (delete_residue_at loc false s hwr p.1 y (hpos p hp) hy).2
+      simp only [readAt, this]
+
+/-- **`gts insert`: every host feature reads, in the output, the residues it read in the host**
+(location well-formed, duplicate-free, on positions of the host; every head `≥ 0`; K2 in no
+step). -/
+theorem insert_host_features_residues_partial (loc : Seq → List Reg) (host guest : Seq) (f : Feature)
+    (hf : f ∈ host.feats) (hwh : ∀ h ∈ (loc host).map Reg.head, 0 ≤ h) (hw : f.loc.wf = true)
+    (hk2 : Cli.insAbs false guest.len (Cli.sortDesc ((loc host).map Reg.head)) f.loc = false)
+    (hnd : f.loc.den.Nodup) (hpos : ∀ p ∈ f.loc.den, 0 ≤ p.1 ∧ p.1 < host.len) :
+    ∃ f' ∈ (Cli.insert loc false host guest).feats, f'.key = f.key ∧ f'.props = f.props ∧
+      f'.loc.den.map (readAt (Cli.insert loc false host guest).bytes) =
+        f.loc.den.map (readAt host.bytes) := by
+  obtain ⟨f', h1, h2, h3, h4⟩ := insert_host_features_eq_partial loc host guest f hf hw hk2 hnd
+  refine ⟨f', h1, h2, h3, ?_⟩
+  rw [h4]
+  unfold mapPos
+  rw [List.map_map]
+  apply List.map_congr_left
+  intro p hp
+  have := insert_residue_at loc false host guest hwh p.1 (hpos p hp).1 (hpos p hp).2
+  simp only [Function.comp, readAt, this]
+
+/-- **`gts infix`: every host feature reads, in the output and OUTSIDE the guest copies, the
+residues it read in the host** (`Expand` stretches a part spanning a head over the guest copy
+there; those additional residues are the copy's). -/
+theorem infix_host_features_residues_partial (loc : Seq → List Reg) (host guest : Seq) (f : Feature)
+    (hf : f ∈ host.feats) (hwh : ∀ h ∈ (loc host).map Reg.head, 0 ≤ h) (hw : f.loc.wf = true)
+    (hk2 : Cli.insAbs true guest.len (Cli.sortDesc ((loc host).map Reg.head)) f.loc = false)
+    (hnd : f.loc.den.Nodup) (hpos : ∀ p ∈ f.loc.den, 0 ≤ p.1 ∧ p.1 < host.len) :
+    ∃ f' ∈ (Cli.insert loc true host guest).feats, f'.key = f.key ∧ f'.props = f.props ∧
+      (Cli.stripGuests (Cli.copyStarts guest.len (Cli.sortDesc ((loc host).map Reg.head))) guest.len
+          f'.loc.den).map (readAt (Cli.insert loc true host guest).bytes) =
+        f.loc.den.map (readAt host.bytes) := by
+  obtain ⟨f', h1, h2, h3, h4⟩ := infix_host_features_partial loc host guest f hf hw hk2
+  refine ⟨f', h1, h2, h3, ?_⟩
+  rw [h4.eq_of_nodup (Cli.nodup_mapPos _ _ (multiInsMap_inj _ _ guest.len_nonneg) hnd)]
+  unfold mapPos
+  rw [List.map_map]
+  apply List.map_congr_left
+  intro p hp
+  have := insert_residue_at loc true host guest hwh p.1 (hpos p hp).1 (hpos p hp).2
+  simp only [Function.comp, readAt, this]
+
+/-- **`gts insert`: every feature of every guest copy reads, in the output, the residues it read
+in the guest** (descending head list `pre ++ i :: post`, the copy inserted at `i`; every head in
+`[0, len]`; guest location well-formed, duplicate-free, on positions of the guest; K2 in no
+step). -/
+theorem guest_features_residues_partial (loc : Seq → List Reg) (host guest : Seq)
+    (hwh : ∀ h ∈ (loc host).map Reg.head, 0 ≤ h ∧ h ≤ host.len) (pre post : List Int) (i : Int)
+    (hsplit : Cli.sortDesc ((loc host).map Reg.head) = pre ++ i :: post)
+    (f : Feature) (hf : f ∈ guest.feats) (hw : f.loc.wf = true) (hnn : f.loc.nonneg = true)
+    (g1 : Loc.expandAbs f.loc 0 i = false)
+    (g2 : Cli.insAbs false guest.len post (f.loc.expand 0 i) = false)
+    (hnd : f.loc.den.Nodup) (hpos : ∀ p ∈ f.loc.den, p.1 < guest.len) :
+    ∃ f' ∈ (Cli.insert loc false host guest).feats, f'.key = f.key ∧ f'.props = f.props ∧
+      f'.loc.den.map (readAt (Cli.insert loc false host guest).bytes) =
+        f.loc.den.map (readAt guest.bytes) := by
+  obtain ⟨_, _, hi, _⟩ := sortDesc_split _ pre post i hsplit
+  have hi0 := (hwh i hi).1
+  obtain ⟨f', h1, h2, h3, h4⟩ := guest_den_partial loc host guest pre post i hsplit hi0 f hf hw hnn g1 g2
+  refine ⟨f', h1, h2, h3, ?_⟩
+  have h5 := h4.eq_of_nodup (Cli.nodup_mapPos _ _ (fun x x' h => by omega) hnd)
+  rw [h5]
+  unfold mapPos
+  rw [List.map_map]
+  apply List.map_congr_left
+  intro p hp
+  have hp0 := Loc.den_nonneg f.loc hw hnn p hp
+  have hpl := hpos p hp
+  have hcb := guest_copy_bytes loc false host guest hwh pre post i hsplit
+  have hc0 : 0 ≤ i + guest.len * post.length :=
+    Int.add_nonneg hi0 (Int.mul_nonneg guest.len_nonneg (by omega))
+  have hlen : guest.len = guest.bytes.length := rfl
+  have e : (p.1 + (i + guest.len * post.length)).toNat =
+      (i + guest.len * post.length).toNat + p.1.toNat := by omega
+  simp only [Function.comp, readAt, e]
+  congr 1
+  have h6 : ((List.drop (i + guest.len * post.length).toNat (Cli.insert loc false host guest).bytes).take
+      guest.bytes.length)[p.1.toNat]? = guest.bytes[p.1.toNat]? := by rw [hcb]
+  rw [List.getElem?_take, if_pos (by omega), List.getElem?_drop] at h6
+  exact h6
+
+/-! ## rotate and (linear) split: features -/
+
+/-- **`gts rotate`, every feature**: C04 `rotate_feature_partial` lifted to the scan loop — with at
+least one located region, every feature of a non-empty record is present in the output with
+unchanged key and qualifiers and denotes the same residues at `(x - head) mod L`, where `head`
+is the head of the FIRST located region (domain of the `Normalize` law and K2 guards as in C04). -/
+theorem rotate_features_partial (loc : Seq → List Reg) (s : Seq) (r : Reg) (rest : List Reg)
+    (h : loc s = r :: rest) (hL : 0 < s.len) (f : Feature) (hf : f ∈ s.feats)
+    (hw : f.loc.wf = true) (hnn : f.loc.nonneg = true)
+    (hok : Loc.normOk s.len (f.loc.expand 0 (C04.rotN (-(r.head)) s.len)) = true)
+    (h1 : Loc.expandAbs f.loc 0 (C04.rotN (-(r.head)) s.len) = false)
+    (h2 : Loc.normalizeAbs (f.loc.expand 0 (C04.rotN (-(r.head)) s.len)) s.len = false) :
+    ∃ f' ∈ (Cli.rotate loc s).feats, f'.key = f.key ∧ f'.props = f.props ∧
+      f'.loc.den ≼ mapPos (rotMap (-(r.head)) s.len) f.loc.den := by
+  simp only [Cli.rotate, h]
+  exact C04.rotate_feature_partial s (-(r.head)) hL f hf hw hnn hok h1 h2
+
+/-- … nothing is lost or added -/
+theorem rotate_feature_count (loc : Seq → List Reg) (s : Seq) :
+    (Cli.rotate loc s).feats.length = s.feats.length := by
+  unfold Cli.rotate
+  split
+  · rfl
+  · exact C04.rotate_feature_count s _
+
+/-- **`rotMap (-head)` is where `gts rotate` puts the residues** (`0 ≤ head ≤ len`, `0 ≤ x < len`) -/
+theorem rotate_residue_at (loc : Seq → List Reg) (s : Seq) (r : Reg) (rest : List Reg)
+    (h : loc s = r :: rest) (h0 : 0 ≤ r.head) (h1 : r.head ≤ s.len) (x : Int) (hx : 0 ≤ x)
+    (hxl : x < s.len) :
+    (Cli.rotate loc s).bytes[(rotMap (-(r.head)) s.len x).toNat]? = s.bytes[x.toNat]? := by
+  have hL : 0 < s.len := by omega
+  have hlen : s.len = s.bytes.length := rfl
+  rw [rotate_first_head loc s r rest h hL h0 h1]
+  unfold rotMap
+  rw [List.getElem?_append, List.getElem?_drop, List.getElem?_take, List.length_drop]
+  by_cases hc : r.head ≤ x
+  · have e : (x + -r.head) % s.len = x - r.head := Int.emod_eq_of_lt (by omega) (by omega)
+    rw [e, if_pos (by omega)]
+    congr 1; omega
+  · have e : (x + -r.head) % s.len = x - r.head + s.len := by
+      have : x + -r.head = (x - r.head + s.len) + (-1) * s.len := by omega
+      rw [this, Int.add_mul_emod_self_right, Int.emod_eq_of_lt (by omega) (by omega)]
+    rw [e, if_neg (by omega), if_pos (by omega)]
+    congr 1; omega
+
+/-- **linear `gts split`, the pieces**: with at least one located region the pieces are the
+slices of the record over the windows between consecutive cuts `0, cuts…, len`
+(`Cli.windows`: consecutive pairs). -/
+theorem split_linear_windows (loc : Seq → List Reg) (s : Seq) (hne : loc s ≠ []) :
+    Cli.split loc false s =
+      (Cli.windows ((0 : Int) :: Cli.sortAscU ((loc s).map Cli.cutOf) ++ [s.len])).map
+        fun w => s.slice w.1 w.2 := by
+  cases hl : loc s with
+  | nil => exact absurd hl hne
+  | cons r0 rest =>
+    rw [split_cons loc false s r0 rest hl, ← Cli.pieces_eq_map]
+    simp
+
+/-- the cut list `0, cuts…, len` is non-decreasing when every cut lies in `[0, len]` -/
+theorem split_linear_cuts_sorted (loc : Seq → List Reg) (s : Seq)
+    (hw : ∀ r ∈ loc s, 0 ≤ Cli.cutOf r ∧ Cli.cutOf r ≤ s.len) :
+    ((0 : Int) :: Cli.sortAscU ((loc s).map Cli.cutOf) ++ [s.len]).Pairwise (fun x y => x ≤ y) := by
+  have hmem : ∀ x ∈ Cli.sortAscU ((loc s).map Cli.cutOf), 0 ≤ x ∧ x ≤ s.len := by
+    intro x hx
+    obtain ⟨r, hr, rfl⟩ := List.mem_map.mp ((Cli.mem_sortAscU x _).mp hx)
+    exact hw r hr
+  have hlen : (0 : Int) ≤ s.len := by unfold Seq.len; omega
+  rw [List.cons_append]
+  refine List.pairwise_cons.mpr ⟨?_, List.pairwise_append.mpr ⟨?_, by simp, ?_⟩⟩
+  · intro b hb
+    rcases List.mem_append.mp hb with hb | hb
+    · exact (hmem b hb).1
+    · rw [List.mem_singleton.mp hb]; exact hlen
+  · exact (Cli.sortAscU_sorted _).imp (fun h => Int.le_of_lt h)
+  · intro a ha b hb
+    rw [List.mem_singleton.mp hb]; exact (hmem a ha).2
+
+/-- **the windows partition the record**: every position `0 ≤ x < len` lies in exactly one window,
+and every window is a forward window inside `[0, len]`. -/
+theorem split_linear_windows_partition (loc : Seq → List Reg) (s : Seq)
+    (hw : ∀ r ∈ loc s, 0 ≤ Cli.cutOf r ∧ Cli.cutOf r ≤ s.len) :
+    (∀ x, 0 ≤ x → x < s.len →
+      ∃ w ∈ Cli.windows ((0 : Int) :: Cli.sortAscU ((loc s).map Cli.cutOf) ++ [s.len]),
+        (w.1 ≤ x ∧ x < w.2) ∧
+        ∀ w' ∈ Cli.windows ((0 : Int) :: Cli.sortAscU ((loc s).map Cli.cutOf) ++ [s.len]),
+          w'.1 ≤ x ∧ x < w'.2 → w' = w) ∧
+    (∀ w ∈ Cli.windows ((0 : Int) :: Cli.sortAscU ((loc s).map Cli.cutOf) ++ [s.len]),
+      0 ≤ w.1 ∧ w.1 ≤ w.2 ∧ w.2 ≤ s.len) := by
+  have hs := split_linear_cuts_sorted loc s hw
+  have hlen : (0 : Int) ≤ s.len := by unfold Seq.len; omega
+  have hall : ∀ x ∈ (0 : Int) :: Cli.sortAscU ((loc s).map Cli.cutOf) ++ [s.len], 0 ≤ x ∧ x ≤ s.len := by
+    intro x hx
+    rw [List.cons_append] at hx
+    rcases List.mem_cons.mp hx with rfl | hx
+    · exact ⟨Int.le_refl _, hlen⟩
+    · rcases List.mem_append.mp hx with hx | hx
+      · obtain ⟨r, hr, rfl⟩ := List.mem_map.mp ((Cli.mem_sortAscU x _).mp hx)
+        exact hw r hr
+      · rw [List.mem_singleton.mp hx]; exact ⟨hlen, Int.le_refl _⟩
+  constructor
+  · intro x h0 h1
+    obtain ⟨w, hwm, hwx⟩ := Cli.window_exists 0 (Cli.sortAscU ((loc s).map Cli.cutOf) ++ [s.len]) s.len x
+      (by rw [← List.cons_append, List.getLast?_append]; simp) h0 h1
+    rw [← List.cons_append] at hwm
+    exact ⟨w, hwm, hwx, fun w' hw' hx' => Cli.window_unique _ hs w' w hw' hwm x hx' hwx⟩
+  · intro w hwm
+    have hm := Cli.mem_windows _ w hwm
+    exact ⟨(hall _ hm.1).1, Cli.window_bounds _ hs w hwm, (hall _ (List.mem_of_mem_tail hm.2)).2⟩
+
+/-- **linear `gts split`, a feature in a piece**: C03 `slice_fwd_feature_partial` lifted to the
+scan loop — for every window `w` of the cut list, a feature overlapping `w` is present in the
+piece `s.slice w.1 w.2` (which IS one of the written pieces) with unchanged key and qualifiers
+and denotes exactly its former residues inside the window, re-based to the window start. -/
+theorem split_piece_feature_partial (loc : Seq → List Reg) (s : Seq) (hne : loc s ≠ [])
+    (hw : ∀ r ∈ loc s, 0 ≤ Cli.cutOf r ∧ Cli.cutOf r ≤ s.len)
+    (w : Int × Int)
+    (hwm : w ∈ Cli.windows ((0 : Int) :: Cli.sortAscU ((loc s).map Cli.cutOf) ++ [s.len]))
+    (f : Feature) (hf : f ∈ s.feats) (hov : f.loc.overlap w.1 w.2 = true)
+    (hwf : f.loc.wf = true) (hpos : ∀ p ∈ f.loc.den, 0 ≤ p.1 ∧ p.1 < s.len)
+    (g1 : Loc.expandAbs f.loc w.2 (w.2 - s.len) = false)
+    (g2 : Loc.expandAbs (f.loc.expand w.2 (w.2 - s.len)) 0 (-w.1) = false) :
+    s.slice w.1 w.2 ∈ Cli.split loc false s ∧
+    ∃ f' ∈ (s.slice w.1 w.2).feats, f'.key = f.key ∧ f'.props = f.props ∧
+      f'.loc.den ≼ filterMapPos (winMap w.1 w.2) f.loc.den := by
+  obtain ⟨h0, h1, h2⟩ := (split_linear_windows_partition loc s hw).2 w hwm
+  refine ⟨?_, C03.slice_fwd_feature_partial s w.1 w.2 h0 h1 h2 f hf hov hwf hpos g1 g2⟩
+  rw [split_linear_windows loc s hne]
+  exact List.mem_map_of_mem (f := fun w => s.slice w.1 w.2) hwm
+
+/-- … and every feature of a piece comes from a feature of the record overlapping its window -/
+theorem split_piece_feature_origin (loc : Seq → List Reg) (s : Seq)
+    (hw : ∀ r ∈ loc s, 0 ≤ Cli.cutOf r ∧ Cli.cutOf r ≤ s.len)
+    (w : Int × Int)
+    (hwm : w ∈ Cli.windows ((0 : Int) :: Cli.sortAscU ((loc s).map Cli.cutOf) ++ [s.len]))
+    (f' : Feature) (hf' : f' ∈ (s.slice w.1 w.2).feats) :
+    ∃ f ∈ s.feats, f.loc.overlap w.1 w.2 = true ∧ f'.key = f.key ∧ f'.props = f.props := by
+  obtain ⟨h0, h1, _⟩ := (split_linear_windows_partition loc s hw).2 w hwm
+  exact C03.slice_fwd_feature_origin s w.1 w.2 h0 h1 f' hf'
+
+/-- **linear `gts split`: the pieces of a feature together denote its residues** — every residue
+`p` a feature denotes (location well-formed, positions inside the record)
+lies in exactly one window `w`; the piece written for `w` contains the feature (same key and
+qualifiers), its location there denotes only former residues of the feature inside `w`, re-based,
+and among them `p` at `p - w.1` on the same strand.  Guards: K2 in neither `Expand` of the
+`Slice` of any window. -/
+theorem split_features_partial (loc : Seq → List Reg) (s : Seq) (hne : loc s ≠ [])
+    (hw : ∀ r ∈ loc s, 0 ≤ Cli.cutOf r ∧ Cli.cutOf r ≤ s.len)
+    (f : Feature) (hf : f ∈ s.feats) (hwf : f.loc.wf = true)
+    (hpos : ∀ p ∈ f.loc.den, 0 ≤ p.1 ∧ p.1 < s.len)
+    (hg : ∀ w ∈ Cli.windows ((0 : Int) :: Cli.sortAscU ((loc s).map Cli.cutOf) ++ [s.len]),
+      Loc.expandAbs f.loc w.2 (w.2 - s.len) = false ∧
+      Loc.expandAbs (f.loc.expand w.2 (w.2 - s.len)) 0 (-w.1) = false)
+    (p : Pos) (hp : p ∈ f.loc.den) :
+    ∃ w ∈ Cli.windows ((0 : Int) :: Cli.sortAscU ((loc s).map Cli.cutOf) ++ [s.len]),
+      (w.1 ≤ p.1 ∧ p.1 < w.2) ∧
+      (∀ w' ∈ Cli.windows ((0 : Int) :: Cli.sortAscU ((loc s).map Cli.cutOf) ++ [s.len]),
+          w'.1 ≤ p.1 ∧ p.1 < w'.2 → w' = w) ∧
+      s.slice w.1 w.2 ∈ Cli.split loc false s ∧
+      ∃ f' ∈ (s.slice w.1 w.2).feats, f'.key = f.key ∧ f'.props = f.props ∧
+        f'.loc.den ≼ filterMapPos (winMap w.1 w.2) f.loc.den ∧ (p.1 - w.1, p.2) ∈ f'.loc.den := by
+  obtain ⟨w, hwm, hwx, huniq⟩ := (split_linear_windows_partition loc s hw).1 p.1 (hpos p hp).1 (hpos p hp).2
+  have hov : f.loc.overlap w.1 w.2 = true :=
+    Cli.overlap_of_den f.loc w.1 w.2 hwf p hp hwx.1 hwx.2
+  obtain ⟨hmem, f', hf', hk, hpr, hden⟩ := split_piece_feature_partial loc s hne hw w hwm f hf hov hwf hpos
+    (hg w hwm).1 (hg w hwm).2
+  refine ⟨w, hwm, hwx, huniq, hmem, f', hf', hk, hpr, hden, ?_⟩
+  apply hden.2
+  unfold filterMapPos
+  rw [List.mem_filterMap]
+  refine ⟨p, hp, ?_⟩
+  simp [winMap, hwx]
+
+/-! ### non-vacuity of the feature theorems -/
+
+/-- a complement-strand join with partial ends, spanning both cuts / all insertion sites -/
+def gene1 : Feature :=
+  ⟨"gene", .compl (.joined [.ranged 1 4 true false, .point 6, .ranged 8 11 false true]), []⟩
+
+/-- `ACGTACGTACGT` with a `source`, the join above and a feature equal to the first cut -/
+def s1 : Seq :=
+  ⟨[⟨"source", .ranged 0 12 false false, []⟩, gene1, ⟨"misc_feature", .ranged 2 5 false false, []⟩],
+   [65, 67, 71, 84, 65, 67, 71, 84, 65, 67, 71, 84]⟩
+
+/-- a backward segment, a nested compound region and a zero-length leaf -/
+def loc1 : Seq → List Reg := fun _ => [seg 5 2, many [seg 9 10, seg 3 4], seg 7 7]
+
+example : gene1 ∈ s1.feats := List.mem_cons_of_mem _ (List.mem_cons_self ..)
+example : minimize (many (loc1 s1)) = [(2, 5), (7, 7), (9, 10)] := by rw [minimize_eq]; decide
+/-- hypotheses of `delete_features_partial` / `delete_features_eq_partial` -/
+example : gene1.loc.wf = true ∧ Cli.delAbs (minimize (many (loc1 s1))) gene1.loc = false ∧
+    gene1.loc.den.Nodup := by
+  rw [minimize_eq]; decide
+/-- … and what they give: of the residues 10,9,8 | 6 | 3,2,1 (complement strand) 9 and 3,2 are cut;
+the survivors 10, 8, 6, 1 move left by 4, 3, 3 and 0 -/
+example : filterMapPos (Cli.unionDelMap (minimize (many (loc1 s1)))) gene1.loc.den =
+    [(6, true), (5, true), (3, true), (1, true)] := by
+  rw [minimize_eq]; decide
+example : (Cli.delete loc1 false s1).feats.map (·.loc.den) =
+    [fwd [0, 1, 2, 3, 4, 5, 6, 7], [(6, true), (5, true), (3, true), (1, true)], []] := by
+  unfold Cli.delete; rw [minimize_eq]; decide
+/-- `-e`: the feature lying within the first cut is dropped, `source` and the join survive -/
+example : (s1.feats.map (Cli.eraseKeep (minimize (many (loc1 s1))))) = [true, true, false] ∧
+    (Cli.delete loc1 true s1).feats.map (·.key) = ["source", "gene"] := by
+  unfold Cli.delete; rw [minimize_eq]; decide
+
+/-- hypotheses of `delete_erase_drops_ranged` for the `misc_feature` `3..5` (0-based `[2,5)`) -/
+example : (2, 5) ∈ minimize (many (loc1 s1)) := by rw [minimize_eq]; decide
+
+/-- guest `NN` with one feature over both residues -/
+def guest1 : Seq := ⟨[⟨"misc_feature", .ranged 0 2 false false, []⟩], [78, 78]⟩
+
+/-- three regions, two of them with the same head: heads 5, 3, 5 -/
+def loc2 : Seq → List Reg := fun _ => [seg 5 2, seg 3 4, seg 5 9]
+
+example : Cli.sortDesc ((loc2 s1).map Reg.head) = [5, 5, 3] := by decide
+/-- hypotheses of `insert_host_features_partial` / `…_eq_partial` and of `infix_host_features_partial` -/
+example : gene1.loc.wf = true ∧
+    Cli.insAbs false guest1.len (Cli.sortDesc ((loc2 s1).map Reg.head)) gene1.loc = false ∧
+    Cli.insAbs true guest1.len (Cli.sortDesc ((loc2 s1).map Reg.head)) gene1.loc = false ∧
+    gene1.loc.den.Nodup := by decide
+/-- … and what they give: residues 1,2 stay, 3 moves by one guest, 6 and 8..10 by three -/
+example : mapPos (Cli.multiInsMap ((loc2 s1).map Reg.head) guest1.len) gene1.loc.den =
+    [(16, true), (15, true), (14, true), (12, true), (5, true), (2, true), (1, true)] := by decide
+example : ((Cli.insert loc2 false s1 guest1).feats.filter (·.key = "gene")).map (·.loc.den) =
+    [[(16, true), (15, true), (14, true), (12, true), (5, true), (2, true), (1, true)]] := by decide
+/-- infix stretches the part `2..4` over the guest copy at 3 (output residues 3, 4) -/
+example : ((Cli.insert loc2 true s1 guest1).feats.filter (·.key = "gene")).map (·.loc.den) =
+    [[(16, true), (15, true), (14, true), (12, true), (5, true), (4, true), (3, true), (2, true), (1, true)]] ∧
+    Cli.copyStarts guest1.len (Cli.sortDesc ((loc2 s1).map Reg.head)) = [9, 7, 3] := by decide
+/-- hypotheses of `guest_den_partial` / `infix_guest_den_partial` / `guest_copy_bytes` for the
+FIRST copy (inserted at 5, then moved by two later insertions to 9) -/
+example : Cli.sortDesc ((loc2 s1).map Reg.head) = [] ++ 5 :: [5, 3] ∧
+    (∀ h ∈ (loc2 s1).map Reg.head, 0 ≤ h ∧ h ≤ s1.len) ∧
+    (∀ f ∈ guest1.feats, f.loc.wf = true ∧ f.loc.nonneg = true ∧ Loc.expandAbs f.loc 0 5 = false ∧
+      Cli.insAbs false guest1.len [5, 3] (f.loc.expand 0 5) = false ∧
+      Cli.insAbs true guest1.len [5, 3] (f.loc.expand 0 5) = false) := by decide
+example : ((Cli.insert loc2 false s1 guest1).feats.filter (·.key = "misc_feature")).map (·.loc.den) =
+    [fwd [2, 5, 6], fwd [3, 4], fwd [7, 8], fwd [9, 10]] ∧
+    (Cli.insert loc2 false s1 guest1).bytes =
+      [65, 67, 71, 78, 78, 84, 65, 78, 78, 78, 78, 67, 71, 84, 65, 67, 71, 84] := by decide
+
+/-- hypotheses of the `…_residues_partial` theorems (positions inside the records) and the
+residues the join reads before and after `gts delete`: `GT A G C` → complement strand of
+positions 10,8,6,1 -/
+example : within s1.len (many (loc1 s1)) ∧ (∀ p ∈ gene1.loc.den, 0 ≤ p.1 ∧ p.1 < s1.len) ∧
+    (∀ h ∈ (loc2 s1).map Reg.head, 0 ≤ h ∧ h ≤ s1.len) ∧
+    (∀ f ∈ guest1.feats, f.loc.den.Nodup ∧ ∀ p ∈ f.loc.den, p.1 < guest1.len) := by decide
+example : (gene1.loc.den.filter fun p => !decide (cover (many (loc1 s1)) p.1)).map (readAt s1.bytes) =
+    [(some 71, true), (some 65, true), (some 71, true), (some 67, true)] := by decide
+
+/-- hypotheses of `rotate_features_partial` / `rotate_residue_at` (first head 5: rotation by 7) -/
+example : loc2 s1 = seg 5 2 :: [seg 3 4, seg 5 9] ∧ 0 < s1.len ∧
+    gene1.loc.wf = true ∧ gene1.loc.nonneg = true ∧
+    Loc.normOk s1.len (gene1.loc.expand 0 (C04.rotN (-5) s1.len)) = true ∧
+    Loc.expandAbs gene1.loc 0 (C04.rotN (-5) s1.len) = false ∧
+    Loc.normalizeAbs (gene1.loc.expand 0 (C04.rotN (-5) s1.len)) s1.len = false := ⟨rfl, by decide⟩
+example : mapPos (rotMap (-5) s1.len) gene1.loc.den =
+    [(5, true), (4, true), (3, true), (1, true), (10, true), (9, true), (8, true)] := by decide
+/-- hypotheses of `split_features_partial` (cuts 2, 3, 5: windows `[0,2) [2,3) [3,5) [5,12)`) -/
+example : loc2 s1 ≠ [] ∧ (∀ r ∈ loc2 s1, 0 ≤ Cli.cutOf r ∧ Cli.cutOf r ≤ s1.len) ∧
+    Cli.windows ((0 : Int) :: Cli.sortAscU ((loc2 s1).map Cli.cutOf) ++ [s1.len]) =
+      [(0, 2), (2, 3), (3, 5), (5, 12)] ∧
+    (∀ w ∈ Cli.windows ((0 : Int) :: Cli.sortAscU ((loc2 s1).map Cli.cutOf) ++ [s1.len]),
+      Loc.expandAbs gene1.loc w.2 (w.2 - s1.len) = false ∧
+      Loc.expandAbs (gene1.loc.expand w.2 (w.2 - s1.len)) 0 (-w.1) = false) :=
+  ⟨by simp [loc2], by decide⟩
+/-- the join in the four pieces: residue 1 | 2 | 3 | 6, 8, 9, 10 (re-based to 1, 3, 4, 5) -/
+example : (Cli.split loc2 false s1).map (fun pc => (pc.feats.filter (·.key = "gene")).map (·.loc.den)) =
+    [[[(1, true)]], [[(0, true)]], [[(0, true)]], [[(5, true), (4, true), (3, true), (1, true)]]] := by
   decide
 
 end Gts.C15
